@@ -16,6 +16,8 @@ type SpySigner struct {
 	Err    error  // error to return
 	ReadN  int    // bytes to read from rand before answering (0 = none)
 	Panic  any    // when non-nil, Sign panics with this value
+	// BestEffortRand: a failed entropy read is ignored (the signer carries on with what it has)
+	BestEffortRand bool
 	mu     sync.Mutex
 	Calls  int
 	Got    [][]byte // copies of every content seen
@@ -47,7 +49,7 @@ func (s *SpySigner) Sign(rand io.Reader, content []byte) ([]byte, error) {
 		buf := make([]byte, s.ReadN)
 		_, err := io.ReadFull(rand, buf)
 		s.RandOK = append(s.RandOK, err == nil)
-		if err != nil {
+		if err != nil && !s.BestEffortRand {
 			return nil, err
 		}
 	}
@@ -128,6 +130,8 @@ type FaultReader struct {
 	OneByte bool  // deliver at most one byte per call
 	Read_   int   // bytes delivered so far
 	Calls   int
+	Once    bool // the failure happens once; later reads succeed again (a transient entropy failure)
+	failed  bool
 }
 
 func (f *FaultReader) Read(p []byte) (int, error) {
@@ -135,7 +139,8 @@ func (f *FaultReader) Read(p []byte) (int, error) {
 	if len(p) == 0 {
 		return 0, nil
 	}
-	if f.After >= 0 && f.Read_ >= f.After {
+	if f.After >= 0 && f.Read_ >= f.After && !(f.Once && f.failed) {
+		f.failed = true
 		if f.Err != nil {
 			return 0, f.Err
 		}
@@ -145,7 +150,7 @@ func (f *FaultReader) Read(p []byte) (int, error) {
 	if f.OneByte {
 		n = 1
 	}
-	if f.After >= 0 && f.Read_+n > f.After {
+	if f.After >= 0 && f.Read_+n > f.After && !(f.Once && f.failed) {
 		n = f.After - f.Read_
 	}
 	m, err := f.Src.Read(p[:n])
